@@ -3,7 +3,7 @@
 Encoded: (*Scalar).Bits from /repo's SSA, its range loop unrolled (concrete bound), with
 scalar.FromMontgomery replaced by an uninterpreted function whose only assumed property is
 its C06 contract `result < n`.  One obligation per bit position."""
-from vf import core, smt
+from vf import core, smt, kernels
 from vf.core import Check
 from vf.dag import BVLower
 from vf.params import *
@@ -21,6 +21,7 @@ def run(tier, seed):
     ck.assumptions = ['FromMontgomery is an uninterpreted function with result < n (its proof is C06\'s obligation)',
                       'the four Montgomery limbs of the receiver are arbitrary 64-bit words']
     ck.bounds = {'bit positions': '0..255, one obligation each', 'scalar limbs': 'all 2^256 limb vectors'}
+    kernels.prove(ck, 'scalar', ['FromMontgomery'], tier)
     paths = [p for p in r.paths if p['end'] == 'return']
     ck.ground('C14.paths', 'Bits has exactly one path and it returns (no data-dependent branch, no panic)', len(r.paths) == 1 and len(paths) == 1)
     p = paths[0]
